@@ -31,7 +31,7 @@ CLAIMS = {
  "C18": ("field-effect summaries (may/must-write), liveness over the extracted decoder automaton",
          "Decides: every field the compression data path may write is must-written by CompressorOxide::reset (derived from the fact base, not hand-listed); each InflateState reset policy must-writes every field inflate() may write; after DecompressorOxide::init() no scalar decoder field is read before it is written on any path from State::Start; no mutable statics, hash-randomised containers, clocks, environment or pointer-to-integer casts; mz_deflateReset reaches CompressorOxide::reset; init_tree rebuilds the Huffman tables from scratch (whole fast table, whole overflow tree). NOT decided: byte-identical output after reset for all histories; the other prefix-written decoder arrays are outside the scalar liveness. Known finding KF-5 (MinReset leaves the window)."),
  "C03": ("table oracle (RFC 1951 written independently), extracted index expressions, inductive path evaluation on MIR",
-         "Decides (tables / grammar / bit discipline only): decoder base/extra tables, code-length order, table-size bases and widths, repeat-code parameters and fixed-block lengths equal RFC 1951 as the code uses them; the stored-block header is collected through a persisted counter; repeat codes fill exactly [counter, counter+run) with the previous length (16) or zero (17/18) and advance the counter by the run; the slow-path Huffman walk never lets a bit beyond num_bits decide (base case + inductive step); init_tree overwrites the whole fast table and zeroes the whole overflow tree (litlen/dist) before inserting anything. NOT decided: canonical code assignment in init_tree, the tree walk result, apply_match/transfer copy semantics — i.e. conformance over the language of valid streams."),
+         "Decides (tables / grammar / bit discipline only): decoder base/extra tables, code-length order, table-size bases and widths, repeat-code parameters and fixed-block lengths equal RFC 1951 as the code uses them; the stored-block header is collected through a persisted counter; repeat codes fill exactly [counter, counter+run) with the previous length (16) or zero (17/18) and advance the counter by the run; the slow-path Huffman walk never lets a bit beyond num_bits decide (base case + inductive step); init_tree overwrites the whole fast table and zeroes the whole overflow tree (litlen/dist) before inserting anything. Token reconstruction on both the fast path and the slow-path states: bits are consumed exactly as used (shift amounts = count reductions, every lookup at the cursor followed by its own code length, every extra-bits field `buffer & ((1<<n)-1)` followed by n), length = LENGTH_BASE[sym-257] + extra(LENGTH_EXTRA[sym-257]) with the index expression evaluated for all 29 symbols, distance = DIST_BASE[sym] + extra(num_extra_bits_for_distance_code(sym)), copy = apply_match(out, position, distance, length) then position += length, partial copies keep source/length/remainder consistent, literals written are the decoded literal symbols once and in order. NOT decided: canonical code assignment in init_tree, the tree walk result inside lookup / decode_huffman_code, apply_match/transfer copy semantics — i.e. conformance over the language of valid streams."),
  "C01": ("table oracle, path tables, finite-domain evaluation of configuration code on MIR",
          "Decides structural clauses only: the encoder's symbol/extra-bit computation (index expressions extracted from compress_lz_codes) agrees with RFC 1951 and with the decoder's tables for all 256 lengths and 32768 distances, and record_match counts the symbols that are emitted; fixed-block lengths agree; every dictionary writer mirrors positions < 257 past the window end; the grow-and-retry loops account exactly and panic only on an impossible status; levels above 10 behave as 10 with no out-of-range probe index; every flush_block result is checked; the stored-block source position advances by exactly the bytes a block encoded. NOT decided: that LZ parsing, Huffman construction and bit packing reproduce the input for all data; absence of panics on the compression path."),
  "C08": ("per-path write budget against established space facts, who-may-write, path tables on MIR",
